@@ -1,12 +1,619 @@
 (* Property C07 — maximum, arg-maximum and thresholding of striped scores match their
-   definitions.  Property theorems only. *)
+   definitions.  Property theorems only (closed by lemmas of MaxiProofs / MaxiKernels /
+   MaxiIEEE / MaxiTop), statement pins and non-vacuity examples.
+
+   Vocabulary (MaxiProofs.v):
+     wf C m             every row of m has C cells
+     all_good good m    every cell satisfies [good] (f32: not NaN; u8: 0..255 via u8_matrix)
+     max_spec le m o    o = None and m = [],  or  o = Some v with m <> [], v a cell of m and
+                        every cell <= v
+     argmax_spec le C m o   o = None and m = [],  or  o = Some (r, c) with r < rows, c < C,
+                        and cell (r, c) >= every cell
+     threshold_spec le m t l   NoDup l  and  (r, c) in l  <->  cell (r, c) exists and t <= cell
+   A kernel "equals its specification" when it returns [Ok o] (no panic) with o meeting the
+   specification; every statement quantifies over all matrices (any number of rows). *)
 From Coq Require Import List Arith Bool NArith ZArith Lia Permutation.
-From LMBase Require Import Res ListX.
-From LMMaxi Require Import MaxiModel MaxiProofs.
+From LMBase Require Import Res ListX IEEE.
+From LMMaxi Require Import MaxiModel MaxiProofs MaxiKernels MaxiIEEE MaxiTop.
 Import ListNotations.
+
+(* ================= order facts (discharged for binary32 and for u8) ================= *)
+
+(* IEEE binary32 (Flocq Bcompare / LMBase.IEEE): <= is a total preorder on the non-NaN
+   values, < is its strict part, MAXPS and f32::max return an operand above both, -inf is
+   the least value *)
+Theorem C07_f32_order : order_facts f32_good F32.le F32.lt F32.max_x86 F32.max F32.ninf.
+Proof. exact f32_order_facts. Qed.
+
+(* equal as values = identical, or zeros of either sign *)
+Theorem C07_f32_value_eq : forall x y, f32_good x -> f32_good y ->
+  F32.le x y = true -> F32.le y x = true ->
+  x = y \/ (IEEE.is_zero 24 128 x = true /\ IEEE.is_zero 24 128 y = true).
+Proof. exact f32_le_antisym. Qed.
+
+Theorem C07_u8_order : preorder_on zgood Z.leb /\ maxlike Z.leb zgood Z.max.
+Proof. split; [exact zle_preorder|exact zmax_maxlike]. Qed.
+
+(* ================= generic scans (pli/mod.rs default impls) ================= *)
+
+Theorem C07_max_spec :
+  forall (T : Type) (le : T -> T -> bool) (good : T -> Prop), preorder_on good le ->
+  forall (C : nat) (m : list (list T)), 0 < C -> wf C m -> all_good good m ->
+  exists o, max_generic le m = Ok o /\ max_spec le m o.
+Proof. intros T le good PO C m. exact (max_generic_ok le good PO C m). Qed.
 
 Theorem C07_argmax_spec :
   forall (T : Type) (le : T -> T -> bool) (good : T -> Prop), preorder_on good le ->
   forall (C : nat) (m : list (list T)), 0 < C -> wf C m -> all_good good m ->
   exists o, argmax_generic le m = Ok o /\ argmax_spec le C m o.
 Proof. intros T le good PO C m. exact (argmax_generic_ok le good PO C m). Qed.
+
+(* no hypothesis at all: each qualifying cell once, nothing else *)
+Theorem C07_threshold_spec :
+  forall (T : Type) (le : T -> T -> bool) (m : list (list T)) (t : T),
+  threshold_spec le m t (threshold_generic le m t).
+Proof. intros T le m t. exact (threshold_generic_ok le m t). Qed.
+
+(* None exactly on the matrix without rows, for every answer meeting its specification;
+   and every entry point of the model answers None there *)
+Theorem C07_none_iff_empty :
+  forall (T : Type) (le : T -> T -> bool) (C : nat) (m : list (list T)),
+  (forall o, max_spec le m o -> (o = None <-> m = [])) /\
+  (forall o, argmax_spec le C m o -> (o = None <-> m = [])).
+Proof.
+  intros T le C m. split; intros [x|]; cbn [max_spec argmax_spec]; intros H; split; intros E;
+    try discriminate; try tauto; try (destruct H as [H _]; contradiction).
+Qed.
+
+Theorem C07_empty_matrix :
+  forall (T : Type) (le lt : T -> T -> bool) (vmax smax : T -> T -> T) (ninf : T) (a : arm) (t : T),
+  dispatch_argmax_f32 le lt ninf a 0 [] = Ok None /\
+  dispatch_max_f32 le vmax smax a [] = Ok None /\
+  dispatch_threshold le a [] t = [] /\
+  dispatch_argmax_u8 a [] = Ok None /\ dispatch_max_u8 a [] = Ok None /\
+  lin_max le [] = Ok None /\ lin_argmax le [] = Ok None.
+Proof. intros. destruct a; repeat split; reflexivity. Qed.
+
+(* ================= the vector kernels equal their specifications ================= *)
+
+Theorem C07_argmax_f32_avx2_eq_spec :
+  forall (T : Type) (good : T -> Prop) (le lt : T -> T -> bool) (vmax smax : T -> T -> T) (ninf : T),
+  order_facts good le lt vmax smax ninf ->
+  forall (max_index : N) (m : list (list T)),
+  wf 32 m -> all_good good m -> rows_fit32 m -> index_fits32 max_index ->
+  exists o, argmax_f32_avx2 le lt max_index m = Ok o /\ argmax_spec le 32 m o.
+Proof.
+  intros T good le lt vmax smax ninf [PO Hlt _ _ _ _] mi m.
+  exact (argmax_f32_avx2_ok le good PO lt Hlt mi m).
+Qed.
+
+(* repaired kernel: the accumulators start from the first row *)
+Theorem C07_max_f32_avx2_eq_spec :
+  forall (T : Type) (good : T -> Prop) (le lt : T -> T -> bool) (vmax smax : T -> T -> T) (ninf : T),
+  order_facts good le lt vmax smax ninf ->
+  forall (m : list (list T)), wf 32 m -> all_good good m ->
+  exists o, max_f32_avx2 vmax smax m = Ok o /\ max_spec le m o.
+Proof.
+  intros T good le lt vmax smax ninf [PO _ Hv Hs _ _] m.
+  exact (max_f32_avx2_ok le good PO vmax Hv smax Hs m).
+Qed.
+
+(* any column count that is a multiple of 16 *)
+Theorem C07_argmax_sse2_eq_spec :
+  forall (T : Type) (good : T -> Prop) (le lt : T -> T -> bool) (vmax smax : T -> T -> T) (ninf : T),
+  order_facts good le lt vmax smax ninf ->
+  forall (B : nat) (max_index : N) (m : list (list T)),
+  0 < B -> wf (B * 16) m -> all_good good m -> rows_fit32 m -> index_fits32 max_index ->
+  (exists o, argmax_sse2 le ninf (B * 16) max_index m = Ok o /\ argmax_spec le (B * 16) m o) /\
+  (exists o, pipeline_sse2_max le ninf (B * 16) max_index m = Ok o /\ max_spec le m o).
+Proof.
+  intros T good le lt vmax smax ninf [PO _ _ _ Hg Hb] B mi m HB Hwf Hgood Hr Hi. split.
+  - exact (argmax_sse2_ok le good PO ninf Hg Hb B mi m HB Hwf Hgood Hr Hi).
+  - exact (pipeline_sse2_max_ok le good PO ninf Hg Hb B mi m HB Hwf Hgood Hr Hi).
+Qed.
+
+(* repaired kernel: column order restored after unpacklo/unpackhi *)
+Theorem C07_argmax_u8_avx2_eq_spec :
+  forall (m : list (list Z)), wf 32 m -> u8_matrix m -> rows_fit16 m ->
+  exists o, argmax_u8_avx2 m = Ok o /\ argmax_spec Z.leb 32 m o.
+Proof. exact argmax_u8_avx2_ok. Qed.
+
+Theorem C07_max_u8_avx2_eq_spec :
+  forall (m : list (list Z)), wf 32 m -> u8_matrix m ->
+  exists o, max_u8_avx2 m = Ok o /\ max_spec Z.leb m o.
+Proof. exact max_u8_avx2_ok. Qed.
+
+(* ================= dispatcher: every arm ================= *)
+
+Theorem C07_dispatch_f32 :
+  forall (T : Type) (good : T -> Prop) (le lt : T -> T -> bool) (vmax smax : T -> T -> T) (ninf : T),
+  order_facts good le lt vmax smax ninf ->
+  forall (a : arm) (max_index : N) (m : list (list T)) (t : T),
+  wf 32 m -> all_good good m ->
+  (rows_fit32 m -> index_fits32 max_index ->
+   exists o, dispatch_argmax_f32 le lt ninf a max_index m = Ok o /\ argmax_spec le 32 m o) /\
+  (exists o, dispatch_argmax_f32 le lt ninf AGeneric max_index m = Ok o /\ argmax_spec le 32 m o) /\
+  (exists o, dispatch_max_f32 le vmax smax a m = Ok o /\ max_spec le m o) /\
+  threshold_spec le m t (dispatch_threshold le a m t).
+Proof.
+  intros T good le lt vmax smax ninf [PO Hlt Hv Hs Hg Hb] a mi m t Hwf Hgood.
+  split; [|split; [|split]].
+  - intros Hr Hi. exact (dispatch_argmax_f32_ok le lt good PO Hlt ninf Hg Hb a mi m Hwf Hgood Hr Hi).
+  - exact (dispatch_argmax_f32_generic_ok le lt good PO ninf mi m Hwf Hgood).
+  - exact (dispatch_max_f32_ok le good PO vmax smax Hv Hs a m Hwf Hgood).
+  - exact (threshold_generic_ok le m t).
+Qed.
+
+(* the only panics of the vector arms are their explicit guards *)
+Theorem C07_dispatch_guards :
+  forall (T : Type) (le lt : T -> T -> bool) (ninf : T) (a : arm) (max_index : N) (m : list (list T)) (mz : list (list Z)),
+  (a <> AGeneric -> (4294967295 < max_index)%N -> dispatch_argmax_f32 le lt ninf a max_index m = Panic 20) /\
+  ((65536 < N.of_nat (length mz))%N -> dispatch_argmax_u8 AAvx2 mz = Panic 21).
+Proof.
+  intros T le lt ninf a mi m mz. split.
+  - exact (dispatch_argmax_f32_guard le lt ninf a mi m).
+  - exact (dispatch_argmax_u8_guard mz).
+Qed.
+
+Theorem C07_dispatch_u8 :
+  forall (a : arm) (m : list (list Z)) (t : Z), wf 32 m -> u8_matrix m ->
+  (rows_fit16 m -> exists o, dispatch_argmax_u8 a m = Ok o /\ argmax_spec Z.leb 32 m o) /\
+  (exists o, dispatch_max_u8 a m = Ok o /\ max_spec Z.leb m o) /\
+  threshold_spec Z.leb m t (dispatch_threshold Z.leb a m t).
+Proof.
+  intros a m t Hwf Hu. split; [|split].
+  - intros Hr. exact (dispatch_argmax_u8_ok a m Hwf Hu Hr).
+  - exact (dispatch_max_u8_ok a m Hwf Hu).
+  - exact (threshold_generic_ok Z.leb m t).
+Qed.
+
+(* all arms agree on the maximum value and on the threshold list *)
+Theorem C07_arms_agree :
+  forall (T : Type) (good : T -> Prop) (le lt : T -> T -> bool) (vmax smax : T -> T -> T) (ninf : T),
+  order_facts good le lt vmax smax ninf ->
+  forall (a b : arm) (m : list (list T)) (t : T), wf 32 m -> all_good good m ->
+  (exists o1 o2, dispatch_max_f32 le vmax smax a m = Ok o1 /\ dispatch_max_f32 le vmax smax b m = Ok o2 /\
+     match o1, o2 with
+     | None, None => m = []
+     | Some v, Some w => le v w = true /\ le w v = true
+     | _, _ => False
+     end) /\
+  dispatch_threshold le a m t = dispatch_threshold le b m t.
+Proof.
+  intros T good le lt vmax smax ninf [PO _ Hv Hs _ _] a b m t Hwf Hgood. split.
+  - exact (dispatch_max_f32_agree le good PO vmax smax Hv Hs a b m Hwf Hgood).
+  - reflexivity.
+Qed.
+
+Theorem C07_arms_agree_u8 :
+  forall (a b : arm) (m : list (list Z)), wf 32 m -> u8_matrix m ->
+  exists o, dispatch_max_u8 a m = Ok o /\ dispatch_max_u8 b m = Ok o.
+Proof. exact dispatch_max_u8_agree. Qed.
+
+(* the value at a reported arg-maximum is the value any reported maximum holds *)
+Theorem C07_argmax_holds_max :
+  forall (T : Type) (le : T -> T -> bool) (C : nat) (m : list (list T)) (rc : nat * nat) (w : T),
+  argmax_spec le C m (Some rc) -> max_spec le m (Some w) ->
+  exists v, get m (fst rc) (snd rc) = Ok v /\ le v w = true /\ le w v = true.
+Proof. exact (@argmax_max_agree). Qed.
+
+(* ================= binary32, concretely: every arm of the f32 dispatcher ================= *)
+
+Theorem C07_f32_all_arms :
+  forall (a : arm) (max_index : N) (m : list (list F32.t)) (t : F32.t),
+  wf 32 m -> all_good f32_good m -> rows_fit32 m -> index_fits32 max_index ->
+  (exists o, dispatch_argmax_f32 F32.le F32.lt F32.ninf a max_index m = Ok o /\ argmax_spec F32.le 32 m o) /\
+  (exists o, dispatch_max_f32 F32.le F32.max_x86 F32.max a m = Ok o /\ max_spec F32.le m o) /\
+  threshold_spec F32.le m t (dispatch_threshold F32.le a m t).
+Proof.
+  intros a mi m t Hwf Hg Hr Hi.
+  destruct f32_order_facts as [PO Hlt Hv Hs Hgn Hb]. split; [|split].
+  - exact (dispatch_argmax_f32_ok F32.le F32.lt f32_good PO Hlt F32.ninf Hgn Hb a mi m Hwf Hg Hr Hi).
+  - exact (dispatch_max_f32_ok F32.le f32_good PO F32.max_x86 F32.max Hv Hs a m Hwf Hg).
+  - exact (threshold_generic_ok F32.le m t).
+Qed.
+
+(* ================= StripedScores level: offsets ================= *)
+
+(* offset of (r, c) is c * rows + r, and scores[offset] is cell (r, c) *)
+Theorem C07_argmax_offset :
+  forall (T : Type) (m : list (list T)) (r c : nat), r < length m ->
+  offset m (r, c) = c * length m + r /\ index_usize m (offset m (r, c)) = get m r c.
+Proof. intros T m r c. exact (argmax_offset m r c). Qed.
+
+(* StripedScores::argmax on top of any arm meeting its specification *)
+Theorem C07_striped_argmax :
+  forall (T : Type) (le : T -> T -> bool) (C : nat) (m : list (list T)) (am : res (option (nat * nat))) o,
+  am = Ok o -> argmax_spec le C m o ->
+  exists o', ss_argmax am m = Ok o' /\ o' = option_map (offset m) o /\
+    match o' with
+    | None => m = []
+    | Some i => m <> [] /\ i < length m * C /\
+                exists v, index_usize m i = Ok v /\ forall x, In x (cells m) -> le x v = true
+    end.
+Proof. intros T le C m am o. exact (ss_argmax_ok le C m am o). Qed.
+
+(* StripedScores::threshold: each qualifying cell once, as its column-major index *)
+Theorem C07_striped_threshold :
+  forall (T : Type) (le : T -> T -> bool) (C : nat) (m : list (list T)) (t : T), wf C m ->
+  NoDup (ss_threshold le m t) /\
+  forall i, In i (ss_threshold le m t) <->
+    exists r c v, r < length m /\ c < C /\ i = c * length m + r /\ get m r c = Ok v /\ le t v = true.
+Proof. intros T le C m t. exact (ss_threshold_ok le C m t). Qed.
+
+(* the offsets as binary numbers (the form evaluated by the extracted driver) are the same *)
+Theorem C07_striped_offsets_N :
+  forall (T : Type) (le : T -> T -> bool) (am : res (option (nat * nat))) (m : list (list T)) (t : T),
+  ss_thresholdN le m t = map N.of_nat (ss_threshold le m t) /\
+  ss_argmaxN am m = (o <- ss_argmax am m ;; Ok (option_map N.of_nat o)) /\
+  (forall l, lin_thresholdN le t l = map N.of_nat (lin_threshold le t l)).
+Proof.
+  intros T le am m t. destruct (ss_N_agree le am m t) as [H1 H2]. split; [exact H1|]. split; [exact H2|].
+  intros l. exact (lin_thresholdN_agree le t l).
+Qed.
+
+(* ================= linear Scores ================= *)
+
+Theorem C07_linear_scores :
+  forall (T : Type) (le : T -> T -> bool) (good : T -> Prop), preorder_on good le ->
+  forall (l : list T) (t : T), Forall good l ->
+  (exists o, lin_max le l = Ok o /\
+     match o with None => l = [] | Some v => In v l /\ forall x, In x l -> le x v = true end) /\
+  (exists o, lin_argmax le l = Ok o /\
+     match o with
+     | None => l = []
+     | Some i => exists v, nth_error l i = Some v /\ forall x, In x l -> le x v = true
+     end) /\
+  NoDup (lin_threshold le t l) /\
+  (forall k, In k (lin_threshold le t l) <-> exists v, nth_error l k = Some v /\ le t v = true).
+Proof.
+  intros T le good PO l t Hg. split; [|split].
+  - exact (lin_max_ok le good PO l Hg).
+  - exact (lin_argmax_ok le good PO l Hg).
+  - exact (lin_threshold_ok le l t).
+Qed.
+
+(* StripedScores::unstripe / iter: position i of the linear view is scores[i], for
+   i < min(max_index, rows * C) *)
+Theorem C07_unstripe_spec :
+  forall (T : Type) (C max_index : nat) (m : list (list T)), wf C m ->
+  length (unstripe C max_index m) = Nat.min max_index (length m * C) /\
+  forall i, i < Nat.min max_index (length m * C) ->
+    exists x, nth_error (unstripe C max_index m) i = Some x /\ index_usize m i = Ok x.
+Proof. intros T C mi m. exact (unstripe_spec C mi m). Qed.
+
+(* Scores::{argmax,max,threshold} of scores.unstripe() are the arg-maximum / maximum /
+   threshold set over the positions below min(max_index, rows * C) of the striped matrix *)
+Theorem C07_linear_of_striped :
+  forall (T : Type) (le : T -> T -> bool) (good : T -> Prop), preorder_on good le ->
+  forall (C max_index : nat) (m : list (list T)) (t : T), wf C m -> all_good good m ->
+  let n := Nat.min max_index (length m * C) in
+  let l := unstripe C max_index m in
+  (exists o, lin_argmax le l = Ok o /\
+     match o with
+     | None => n = 0
+     | Some i => i < n /\ exists v, index_usize m i = Ok v /\
+                 forall j y, j < n -> index_usize m j = Ok y -> le y v = true
+     end) /\
+  (exists o, lin_max le l = Ok o /\
+     match o with
+     | None => n = 0
+     | Some v => (exists i, i < n /\ index_usize m i = Ok v) /\
+                 forall j y, j < n -> index_usize m j = Ok y -> le y v = true
+     end) /\
+  (forall k, In k (lin_threshold le t l) <-> k < n /\ exists v, index_usize m k = Ok v /\ le t v = true).
+Proof. intros T le good PO C mi m t. exact (linear_of_striped le good PO C mi m t). Qed.
+
+(* ================= padding: wildcard column -inf ================= *)
+
+(* the defined score of a window reaching past the end of the sequence is -inf
+   (binary32 addition as it is; no term and no partial sum NaN or +inf) *)
+Theorem C07_padding_score_neg_inf :
+  forall (wild : nat) (dflt : F32.t) (pssm : list (list F32.t)) (s : list nat) (i : nat),
+  (forall row, In row pssm -> nth wild row dflt = F32.ninf) ->
+  0 < length pssm -> length s < i + length pssm ->
+  terms_ok F32.add F32.zero wild dflt f32_okv pssm s i = true ->
+  score_def F32.add F32.zero wild dflt pssm s i = F32.ninf.
+Proof.
+  intros wild dflt pssm s i.
+  exact (padding_score_ninf F32.add F32.zero F32.ninf dflt wild f32_okv
+           f32_add_ninf_r f32_add_ninf_l pssm s i).
+Qed.
+
+(* cells = defined scores (C01) ==> every cell past the last valid position holds -inf, and
+   when some valid position is finite a maximum of the whole matrix is the maximum over the
+   valid positions (held by one of them) and an arg-maximum designates a valid position.
+   Valid positions: i + M <= L, i.e. i < L + 1 - M. *)
+Theorem C07_padding_neg_inf :
+  forall (wild : nat) (dflt : F32.t) (C : nat) (m : list (list F32.t)) (pssm : list (list F32.t)) (s : list nat),
+  wf C m ->
+  (forall i, i < length m * C -> index_usize m i = Ok (score_def F32.add F32.zero wild dflt pssm s i)) ->
+  (forall row, In row pssm -> nth wild row dflt = F32.ninf) ->
+  0 < length pssm ->
+  (forall i, i < length m * C -> terms_ok F32.add F32.zero wild dflt f32_okv pssm s i = true) ->
+  let V := length s + 1 - length pssm in
+  (forall i, V <= i -> i < length m * C -> index_usize m i = Ok F32.ninf) /\
+  ((exists i x, i < V /\ index_usize m i = Ok x /\ F32.is_finite x = true) ->
+   (forall v, is_max F32.le m v ->
+      (exists i, i < V /\ index_usize m i = Ok v) /\
+      (forall j y, j < V -> index_usize m j = Ok y -> F32.le y v = true)) /\
+   (forall rc, argmax_spec F32.le C m (Some rc) -> offset m rc < V)).
+Proof.
+  intros wild dflt C m pssm s Hwf Hcell Hw HM Hok V.
+  assert (Hpad : forall i, V <= i -> i < length m * C -> index_usize m i = Ok F32.ninf).
+  { intros i Hv Hi.
+    apply (padding_cells F32.add F32.zero F32.ninf dflt wild f32_okv
+             f32_add_ninf_r f32_add_ninf_l C m pssm s Hcell Hw HM Hok i); auto.
+    unfold V in Hv. lia. }
+  split; [exact Hpad|].
+  intros (i0 & x & Hi0 & Hx & Hfin).
+  assert (Hex : exists i x, i < V /\ index_usize m i = Ok x /\ F32.le x F32.ninf = false).
+  { exists i0, x. repeat split; auto. apply f32_finite_not_le_ninf; auto. }
+  split.
+  - intros v Hv. exact (padding_max F32.le F32.ninf C V m v Hwf Hpad Hex Hv).
+  - intros rc Hrc. exact (padding_argmax F32.le F32.ninf C V m rc Hwf Hpad Hex Hrc).
+Qed.
+
+(* ================= the extracted checker ================= *)
+
+(* what [check_C07] establishes about the three answers of an entry point of the
+   implementation (the threshold list may be reported in any order; the driver sorts it) *)
+Theorem check_C07_sound :
+  forall (T : Type) (le : T -> T -> bool) (C : nat) (m : list (list T)) (t : T)
+         (omax : option T) (oam : option (nat * nat)) (reported sorted : list (nat * nat)),
+  wf C m -> Permutation reported sorted ->
+  check_C07 le m t omax oam sorted = true ->
+  max_holds le m omax /\ argmax_spec le C m oam /\ threshold_spec le m t reported.
+Proof. intros T le C m t omax oam reported sorted. exact (MaxiTop.check_C07_sound le C m t omax oam reported sorted). Qed.
+
+(* answers meeting the specifications always pass (no false alarm), in particular the model's *)
+Theorem check_C07_complete :
+  forall (T : Type) (le : T -> T -> bool) (good : T -> Prop), preorder_on good le ->
+  forall (C : nat) (m : list (list T)) (t : T) omax oam,
+  all_good good m -> max_spec le m omax -> argmax_spec le C m oam ->
+  check_C07 le m t omax oam (threshold_generic le m t) = true.
+Proof. intros T le good PO C m t omax oam. exact (MaxiTop.check_C07_complete le good PO C m t omax oam). Qed.
+
+Theorem model_passes_C07 :
+  forall (T : Type) (le : T -> T -> bool) (good : T -> Prop), preorder_on good le ->
+  forall (C : nat) (m : list (list T)) (t : T), 0 < C -> wf C m -> all_good good m ->
+  exists omax oam, max_generic le m = Ok omax /\ argmax_generic le m = Ok oam /\
+    check_C07 le m t omax oam (threshold_generic le m t) = true.
+Proof. intros T le good PO C m t. exact (MaxiTop.model_passes_C07 le good PO C m t). Qed.
+
+Theorem check_padding_sound :
+  forall (T : Type) (is_ninf : T -> bool) (m : list (list T)) (V n : nat),
+  check_padding is_ninf m V n = true ->
+  forall i, V <= i -> i < n -> exists x, index_usize m i = Ok x /\ is_ninf x = true.
+Proof. intros T is_ninf m V n. exact (MaxiTop.check_padding_sound is_ninf m V n). Qed.
+
+(* the end-to-end padding checker: every cell with index in V .. n-1 is -inf and, when some
+   valid cell is finite, the reported maximum is the maximum of the valid cells (equal as a value
+   to one of them, above all of them) and the reported arg-maximum offset is a valid position *)
+Theorem check_padding_max_sound :
+  forall (T : Type) (le : T -> T -> bool) (is_ninf is_fin : T -> bool) (m : list (list T)) (V n : nat)
+         (omax : option T) (oam : option nat),
+  check_padding_max le is_ninf is_fin m V n omax oam = true ->
+  (forall i, V <= i -> i < n -> exists x, index_usize m i = Ok x /\ is_ninf x = true) /\
+  ((exists i x, i < V /\ index_usize m i = Ok x /\ is_fin x = true) ->
+   (exists v, omax = Some v /\
+      (exists i x, i < V /\ index_usize m i = Ok x /\ le x v = true /\ le v x = true) /\
+      (forall j y, j < V -> index_usize m j = Ok y -> le y v = true)) /\
+   (exists off, oam = Some off /\ off < V)).
+Proof. intros T le is_ninf is_fin m V n omax oam. exact (MaxiTop.check_padding_max_sound le is_ninf is_fin m V n omax oam). Qed.
+
+(* ... and it raises no false alarm: when the padding cells are -inf, a maximum and an
+   arg-maximum meeting their specifications pass it *)
+Theorem check_padding_max_complete :
+  forall (T : Type) (le : T -> T -> bool) (good : T -> Prop), preorder_on good le ->
+  forall (is_ninf is_fin : T -> bool) (ninf : T) (C : nat) (m : list (list T)) (V : nat)
+         (omax : option T) (o : option (nat * nat)),
+  wf C m -> all_good good m ->
+  is_ninf ninf = true -> (forall x, is_fin x = true -> le x ninf = false) ->
+  (forall i, V <= i -> i < length m * C -> index_usize m i = Ok ninf) ->
+  max_spec le m omax -> argmax_spec le C m o ->
+  check_padding_max le is_ninf is_fin m V (length m * C) omax (option_map (offset m) o) = true.
+Proof.
+  intros T le good PO is_ninf is_fin ninf C m V omax o.
+  exact (MaxiTop.check_padding_max_complete le good PO is_ninf is_fin ninf C m V omax o).
+Qed.
+
+(* ================= statement pins ================= *)
+
+Check C07_max_spec :
+  forall (T : Type) (le : T -> T -> bool) (good : T -> Prop), preorder_on good le ->
+  forall (C : nat) (m : list (list T)), 0 < C -> wf C m -> all_good good m ->
+  exists o, max_generic le m = Ok o /\ max_spec le m o.
+Check C07_argmax_spec :
+  forall (T : Type) (le : T -> T -> bool) (good : T -> Prop), preorder_on good le ->
+  forall (C : nat) (m : list (list T)), 0 < C -> wf C m -> all_good good m ->
+  exists o, argmax_generic le m = Ok o /\ argmax_spec le C m o.
+Check C07_threshold_spec :
+  forall (T : Type) (le : T -> T -> bool) (m : list (list T)) (t : T),
+  threshold_spec le m t (threshold_generic le m t).
+Check C07_max_f32_avx2_eq_spec :
+  forall (T : Type) (good : T -> Prop) (le lt : T -> T -> bool) (vmax smax : T -> T -> T) (ninf : T),
+  order_facts good le lt vmax smax ninf ->
+  forall (m : list (list T)), wf 32 m -> all_good good m ->
+  exists o, max_f32_avx2 vmax smax m = Ok o /\ max_spec le m o.
+Check C07_argmax_u8_avx2_eq_spec :
+  forall (m : list (list Z)), wf 32 m -> u8_matrix m -> rows_fit16 m ->
+  exists o, argmax_u8_avx2 m = Ok o /\ argmax_spec Z.leb 32 m o.
+Check C07_f32_order : order_facts f32_good F32.le F32.lt F32.max_x86 F32.max F32.ninf.
+Check C07_f32_all_arms :
+  forall (a : arm) (max_index : N) (m : list (list F32.t)) (t : F32.t),
+  wf 32 m -> all_good f32_good m -> rows_fit32 m -> index_fits32 max_index ->
+  (exists o, dispatch_argmax_f32 F32.le F32.lt F32.ninf a max_index m = Ok o /\ argmax_spec F32.le 32 m o) /\
+  (exists o, dispatch_max_f32 F32.le F32.max_x86 F32.max a m = Ok o /\ max_spec F32.le m o) /\
+  threshold_spec F32.le m t (dispatch_threshold F32.le a m t).
+Check check_C07_sound :
+  forall (T : Type) (le : T -> T -> bool) (C : nat) (m : list (list T)) (t : T)
+         (omax : option T) (oam : option (nat * nat)) (reported sorted : list (nat * nat)),
+  wf C m -> Permutation reported sorted ->
+  check_C07 le m t omax oam sorted = true ->
+  max_holds le m omax /\ argmax_spec le C m oam /\ threshold_spec le m t reported.
+
+(* the specifications, spelled out (so that a change of a definition is visible here) *)
+Check (fun (T : Type) (le : T -> T -> bool) (m : list (list T)) (v : T) =>
+  eq_refl : max_spec le m (Some v) =
+            (m <> [] /\ (In v (cells m) /\ forall x, In x (cells m) -> le x v = true))).
+Check (fun (T : Type) (le : T -> T -> bool) (C : nat) (m : list (list T)) (rc : nat * nat) =>
+  eq_refl : argmax_spec le C m (Some rc) =
+            (m <> [] /\ fst rc < length m /\ snd rc < C /\
+             exists v, get m (fst rc) (snd rc) = Ok v /\ forall x, In x (cells m) -> le x v = true)).
+Check (fun (T : Type) (le : T -> T -> bool) (m : list (list T)) (t : T) (l : list (nat * nat)) =>
+  eq_refl : threshold_spec le m t l =
+            (NoDup l /\ forall r c, In (r, c) l <-> exists v, get m r c = Ok v /\ le t v = true)).
+Check (fun (T : Type) (le : T -> T -> bool) (C : nat) (m : list (list T)) =>
+  conj eq_refl eq_refl : max_spec le m None = (m = []) /\ argmax_spec le C m None = (m = [])).
+
+(* ================= non-vacuity ================= *)
+
+Definition f32b (z : Z) : F32.t := F32.of_bits z.
+(* -1.0 = 0xBF800000, -7.5 = 0xC0F00000, -0.25 = 0xBE800000 *)
+Definition neg1 := f32b 3212836864.
+Definition neg7_5 := f32b 3236954112.
+Definition neg0_25 := f32b 3196059648.
+
+(* an all-negative matrix of 3 rows whose unique maximum -0.25 is at (1, 17): the witness
+   family of the two repaired AVX2 defects (max_f32 started from 0.0; argmax_u8 lanes) *)
+Definition ex_row (v : F32.t) (c : nat) : list F32.t := repeat neg7_5 c ++ v :: repeat neg7_5 (31 - c).
+Definition ex_m : list (list F32.t) := [ex_row neg1 3; ex_row neg0_25 17; repeat neg7_5 32].
+
+Lemma forallb_Forall {A} (p : A -> bool) (P : A -> Prop) (l : list A) :
+  (forall x, p x = true -> P x) -> forallb p l = true -> Forall P l.
+Proof.
+  intros Hp H. apply Forall_forall. intros x Hx. apply Hp. rewrite forallb_forall in H. auto.
+Qed.
+
+Example C07_hypotheses_satisfiable :
+  wf 32 ex_m /\ all_good f32_good ex_m /\ rows_fit32 ex_m /\ index_fits32 96.
+Proof.
+  split; [|split; [|split]].
+  - repeat constructor.
+  - apply (forallb_Forall (fun y => negb (F32.is_nan y))).
+    + intros x Hx. unfold f32_good. destruct (F32.is_nan x); [discriminate|reflexivity].
+    + vm_compute. reflexivity.
+  - unfold rows_fit32. cbn. discriminate.
+  - unfold index_fits32. cbn. discriminate.
+Qed.
+
+(* all three arms on it: arg-maximum (1, 17), maximum -0.25 (bits 0xBE800000), cells >= -1.0 *)
+Example C07_f32_arms_on_example :
+  forall a,
+    dispatch_argmax_f32 F32.le F32.lt F32.ninf a 96 ex_m = Ok (Some (1, 17)) /\
+    match dispatch_max_f32 F32.le F32.max_x86 F32.max a ex_m with
+    | Ok (Some v) => F32.to_bits v = 3196059648%Z
+    | _ => False
+    end /\
+    dispatch_threshold F32.le a ex_m neg1 = [(0, 3); (1, 17)].
+Proof. intros a; destruct a; vm_compute; repeat split; reflexivity. Qed.
+
+Definition ex_u8 : list (list Z) :=
+  [repeat 3%Z 32; repeat 3%Z 17 ++ 200%Z :: repeat 3%Z 14; repeat 3%Z 31 ++ [200%Z]].
+
+Example C07_u8_arms_on_example :
+  wf 32 ex_u8 /\ u8_matrix ex_u8 /\ rows_fit16 ex_u8 /\
+  forall a, dispatch_argmax_u8 a ex_u8 = Ok (Some (2, 31)) /\ dispatch_max_u8 a ex_u8 = Ok (Some 200%Z).
+Proof.
+  split; [repeat constructor|]. split.
+  - apply (forallb_Forall (fun y => Z.leb 0 y && Z.leb y 255)).
+    + intros x Hx. apply andb_true_iff in Hx. destruct Hx as [H1 H2]. apply Z.leb_le in H1, H2. lia.
+    + vm_compute. reflexivity.
+  - split; [unfold rows_fit16; cbn; discriminate|].
+    intros a; destruct a; vm_compute; split; reflexivity.
+Qed.
+
+(* the padding theorem's hypotheses hold for a real instance: motif of width 2 with a -inf
+   wildcard column, sequence ACGT (symbols A=0 C=1 T=2 G=3), one row of 32 cells *)
+Definition ex_pssm : list (list F32.t) :=
+  [[neg1; neg0_25; neg7_5; neg1; F32.ninf]; [neg0_25; neg1; neg1; neg7_5; F32.ninf]].
+Definition ex_seq : list nat := [0; 1; 3; 2].
+Definition ex_score (i : nat) : F32.t := score_def F32.add F32.zero 4 F32.nan ex_pssm ex_seq i.
+Definition ex_scores : list (list F32.t) := [map ex_score (seq 0 32)].
+
+Example C07_padding_instance :
+  wf 32 ex_scores /\
+  (forall i, i < length ex_scores * 32 ->
+     index_usize ex_scores i = Ok (score_def F32.add F32.zero 4 F32.nan ex_pssm ex_seq i)) /\
+  (forall row, In row ex_pssm -> nth 4 row F32.nan = F32.ninf) /\
+  0 < length ex_pssm /\
+  (forall i, i < length ex_scores * 32 -> terms_ok F32.add F32.zero 4 F32.nan f32_okv ex_pssm ex_seq i = true) /\
+  (exists i x, i < length ex_seq + 1 - length ex_pssm /\ index_usize ex_scores i = Ok x /\ F32.is_finite x = true) /\
+  check_padding f32_is_ninf ex_scores 3 32 = true /\
+  F32.to_bits (ex_score 0) = 3221225472%Z.                      (* -1.0 + -1.0 = -2.0 *)
+Proof.
+  assert (Hidx : forall i, i < 32 -> index_usize ex_scores i = Ok (ex_score i)).
+  { intros i Hi. unfold ex_scores, index_usize, get. cbn [length].
+    rewrite Nat.mod_1_r, Nat.div_1_r. cbn [nth_error].
+    assert (E : nth_error (seq 0 32) i = Some i).
+    { rewrite (nth_error_nth' _ 0) by (rewrite seq_length; lia). rewrite seq_nth by lia. reflexivity. }
+    rewrite (map_nth_error ex_score i (seq 0 32) E). reflexivity. }
+  split; [repeat constructor|].
+  split; [intros i Hi; apply Hidx; exact Hi|].
+  split; [intros row [<-|[<-|[]]]; reflexivity|].
+  split; [cbn; lia|].
+  split.
+  { intros i Hi.
+    assert (H : forallb (fun i => terms_ok F32.add F32.zero 4 F32.nan f32_okv ex_pssm ex_seq i) (seq 0 32) = true)
+      by (vm_compute; reflexivity).
+    rewrite forallb_forall in H. apply H. apply in_seq. cbn in Hi. lia. }
+  split.
+  { exists 0, (ex_score 0). split; [cbn; lia|]. split; [apply Hidx; lia|]. vm_compute. reflexivity. }
+  split; vm_compute; reflexivity.
+Qed.
+
+(* ================= the specifications discriminate: the two repaired defects ================= *)
+
+(* max_f32_avx2 as it was before the fix (accumulators start from 0.0 instead of the first
+   row): on the all-negative example it answers 0.0, which [max_spec] rejects *)
+Definition max_f32_avx2_zero_init (m : list (list F32.t)) : res (option F32.t) :=
+  match m with
+  | [] => Ok None
+  | _ :: _ =>
+      let regs := fold_left (fun acc row => map2 (map2 F32.max_x86) acc (load4x8 row)) m
+                            (load4x8 (repeat F32.zero 32)) in
+      match regs with
+      | [m1; m2; m3; m4] =>
+          match map2 F32.max_x86 (map2 F32.max_x86 m1 m2) (map2 F32.max_x86 m3 m4) with
+          | [] => Panic 23
+          | x0 :: rest => Ok (Some (fold_left F32.max rest x0))
+          end
+      | _ => Panic 23
+      end
+  end.
+
+Example C07_max_f32_zero_init_refuted :
+  max_f32_avx2_zero_init ex_m = Ok (Some F32.zero) /\ ~ max_spec F32.le ex_m (Some F32.zero).
+Proof.
+  split; [vm_compute; reflexivity|]. intros H.
+  destruct C07_hypotheses_satisfiable as (_ & Hg & _).
+  apply (check_max_complete F32.le f32_good f32_preorder ex_m _ Hg) in H.
+  vm_compute in H. discriminate.
+Qed.
+
+(* argmax_u8_avx2 as it was before the fix (p1 / p2 stored without restoring the column
+   order): on a matrix whose maximum is at (0, 17) it designates another cell *)
+Definition argmax_u8_avx2_unpermuted (m : list (list Z)) : res (option (nat * nat)) :=
+  match m with
+  | [] => Ok None
+  | _ =>
+      let st0 : u8_vstate := ((repeat (-1)%Z 16, repeat (-1)%Z 16), (repeat O 16, repeat O 16)) in
+      let '(_, (p1, p2)) := fold_left argmax_u8_vstep (enumerate m) st0 in
+      ks <- u8_keys m 0 (p1 ++ p2) ;;
+      match ks with
+      | [] => Panic 23
+      | k0 :: rest => Ok (Some (fst (fold_left (pick_ge Z.leb) rest k0)))
+      end
+  end.
+
+Definition ex_u8_17 : list (list Z) := [repeat 3%Z 17 ++ 200%Z :: repeat 3%Z 14; repeat 3%Z 32].
+
+Example C07_argmax_u8_unpermuted_refuted :
+  argmax_u8_avx2 ex_u8_17 = Ok (Some (0, 17)) /\
+  exists rc, argmax_u8_avx2_unpermuted ex_u8_17 = Ok (Some rc) /\ rc <> (0, 17) /\
+             ~ argmax_spec Z.leb 32 ex_u8_17 (Some rc).
+Proof.
+  split; [vm_compute; reflexivity|]. eexists. split; [vm_compute; reflexivity|]. split; [discriminate|].
+  intros H. apply (check_argmax_complete Z.leb 32) in H. vm_compute in H. discriminate.
+Qed.
